@@ -54,6 +54,9 @@ THEOREMS = [P + n for n in (
 
 SZCON = 584
 KEY_PUSHPAIR = "c20:pushPairArena-null-deref"
+# permanent regression probe of the recorded defect (fixed in /repo by 891ecd907): on the unfixed tree spheres14 died in
+# pushPairArena for narena in 2608..2631; these sizes are run on every run, before the adaptive refinement
+PROBE_SIZES = {"spheres14": tuple(range(2560, 2720, 2))}
 
 
 # ------------------------------------------------------------------------------------------------ models
@@ -273,6 +276,7 @@ def sweep_model(ctx, sw, name, lines, nsteps, thorough_full, rng, fails, traces,
 
     if thorough_full:
         run_sizes(range(0, need + 64, 8), 0)
+    run_sizes(PROBE_SIZES.get(name.replace("[asan]", ""), ()), 2)
     run_sizes(adaptive_sizes(rng, need, 36), 4)
     for _ in range(max_rounds):
         ks = sorted(results)
